@@ -134,7 +134,174 @@ impl Compiler {
     //@  ensures final(self).chunk.code@.len() == old(self).chunk.code@.len()
     //@  ensures r is Ok ==> u16_of(final(self).chunk.code@[offset as int], final(self).chunk.code@[offset + 1]) == old(self).chunk.code@.len() - offset - 2
     //@  ensures forall|j: int| 0 <= j < old(self).chunk.code@.len() && j != offset && j != offset + 1 ==> final(self).chunk.code@[j] == old(self).chunk.code@[j]
-    //@  ensures final(self).locals@ == old(self).locals@ && final(self).upvalues@ == old(self).upvalues@
+    //@  ensures same_compiler_but_code(*old(self), *final(self)) && final(self).chunk.lines == old(self).chunk.lines
+    //@  ensures r matches Err(e) ==> e is JumpTooLarge
+    //@end
+}
+
+// ================================================================== Parser (emitters, resolution across compilers)
+//@struct file=yarel/src/compiler.rs name=ClassCompiler
+//@enum file=yarel/src/chunk.rs name=OpCode
+//@struct file=yarel/src/compiler.rs name=Parser map "Parser<'a>" => "Parser" map "Cell<bool>" => "bool" map "RefCell<Vec<String>>" => "Vec<String>" dropfield scanner dropfield vm dropfield attributes dropfield compiled_functions addfield "pub ghost pushed: int"
+
+// The real enum is #[repr(u8)] and cast with `as u8`; only injectivity matters to the encoder contracts.
+pub uninterp spec fn opcode_byte(op: OpCode) -> u8;
+#[verifier::external_body]
+fn opcode_u8(op: OpCode) -> (r: u8) ensures r == opcode_byte(op) { op as u8 }
+
+spec fn same_compiler_but_code(a: Compiler, b: Compiler) -> bool {
+    &&& a.function == b.function && a.kind == b.kind && a.locals == b.locals && a.upvalues == b.upvalues
+    &&& a.scope_depth == b.scope_depth && a.lambda_count == b.lambda_count && a.in_try_block == b.in_try_block
+    &&& a.loop_stack == b.loop_stack && a.break_stack == b.break_stack
+    &&& a.chunk.constants == b.chunk.constants && a.chunk.constant_map == b.chunk.constant_map
+}
+
+impl Chunk {
+    //@fn file=yarel/src/chunk.rs path=Chunk::write
+    //@  ensures final(self).code@ == old(self).code@.push(byte) && final(self).lines@ == old(self).lines@.push(line)
+    //@  ensures final(self).constants == old(self).constants && final(self).constant_map == old(self).constant_map
+    //@end
+
+    // std HashMap entry API: assumed contract (HashMap is outside both back ends' reach).
+    #[verifier::external_body]
+    pub fn add_constant(&mut self, value: Value) -> (r: usize)
+        ensures
+            r < final(self).constants@.len(), final(self).constants@[r as int] == value,
+            old(self).constants@.len() <= final(self).constants@.len() <= old(self).constants@.len() + 1,
+            final(self).constants@.subrange(0, old(self).constants@.len() as int) == old(self).constants@,
+            final(self).code == old(self).code, final(self).lines == old(self).lines,
+    { unimplemented!() }
+}
+
+impl Parser {
+    spec fn pwf(&self) -> bool {
+        &&& self.compilers.len() > 0
+        &&& forall|i: int| 0 <= i < self.compilers.len() ==> (#[trigger] self.compilers[i]).wf()
+    }
+    spec fn cur(&self) -> Compiler { self.compilers[self.compilers.len() - 1] }
+    spec fn code(&self) -> Seq<u8> { self.cur().chunk.code@ }
+    spec fn has_error(&self) -> bool { self.errors.len() > 0 }
+
+    // everything but the current chunk's code/lines is unchanged
+    spec fn same_but_code(&self, b: &Parser) -> bool {
+        &&& self.compilers.len() == b.compilers.len() && self.compilers.len() > 0
+        &&& forall|i: int| 0 <= i < self.compilers.len() - 1 ==> self.compilers[i] == b.compilers[i]
+        &&& same_compiler_but_code(self.cur(), b.cur())
+        &&& self.errors == b.errors && self.panic_mode == b.panic_mode && self.previous == b.previous && self.current == b.current
+        &&& self.class_compilers == b.class_compilers && self.pushed == b.pushed && self.single_target_mode == b.single_target_mode
+    }
+    // only the error log may have changed (and it can only grow into "has_error")
+    spec fn same_but_errors(&self, b: &Parser) -> bool {
+        &&& self.compilers == b.compilers && self.previous == b.previous && self.current == b.current
+        &&& self.class_compilers == b.class_compilers && self.pushed == b.pushed && self.single_target_mode == b.single_target_mode
+        &&& (self.has_error() ==> b.has_error())
+    }
+    // code/lines of the current chunk and the error log may have changed
+    spec fn same_but_code_errors(&self, b: &Parser) -> bool {
+        &&& self.compilers.len() == b.compilers.len() && self.compilers.len() > 0
+        &&& forall|i: int| 0 <= i < self.compilers.len() - 1 ==> self.compilers[i] == b.compilers[i]
+        &&& same_compiler_but_code(self.cur(), b.cur())
+        &&& self.previous == b.previous && self.current == b.current
+        &&& self.class_compilers == b.class_compilers && self.pushed == b.pushed && self.single_target_mode == b.single_target_mode
+        &&& (self.has_error() ==> b.has_error())
+    }
+
+    // Parser::error / error_at (compiler.rs) write through Cell/RefCell and `write!`; assumed contract:
+    // afterwards an error is on record (panic_mode ==> errors non-empty is the invariant that makes the
+    // early return of error_at sound), nothing else changes. `&self` becomes `&mut self` in the stand-in.
+    #[verifier::external_body]
+    fn error(&mut self, message: &str)
+        ensures old(self).same_but_errors(final(self)), final(self).has_error(),
+    { unimplemented!() }
+
+    #[verifier::external_body]
+    fn compiler_error(&mut self, error: CompilerError)
+        ensures old(self).same_but_errors(final(self)),
+            (error is JumpTooLarge || error is ReadVarInInitialiser || error is TooManyClosureVars || error is InvalidControlStatement) ==> final(self).has_error(),
+    { unimplemented!() }
+
+    //@fn file=yarel/src/compiler.rs path=Parser::compiler ret=r
+    //@  requires old(self).compilers.len() > 0
+    //@  ensures *r == old(self).cur(), *final(self) == *old(self)
+    //@end
+
+    //@fn file=yarel/src/compiler.rs path=Parser::compiler_mut ret=r
+    //@  requires old(self).compilers.len() > 0
+    //@  ensures *r == old(self).cur()
+    //@  ensures final(self).compilers@ == old(self).compilers@.update(old(self).compilers.len() - 1, *final(r))
+    //@  ensures final(self).errors == old(self).errors && final(self).panic_mode == old(self).panic_mode && final(self).previous == old(self).previous && final(self).current == old(self).current
+    //@  ensures final(self).class_compilers == old(self).class_compilers && final(self).pushed == old(self).pushed && final(self).single_target_mode == old(self).single_target_mode
+    //@end
+
+    //@fn file=yarel/src/compiler.rs path=Parser::chunk ret=r
+    //@  requires old(self).compilers.len() > 0
+    //@  ensures *r == old(self).cur().chunk
+    //@  ensures final(self).compilers.len() == old(self).compilers.len()
+    //@  ensures forall|i: int| 0 <= i < old(self).compilers.len() - 1 ==> final(self).compilers[i] == old(self).compilers[i]
+    //@  ensures final(self).cur().chunk == *final(r)
+    //@  ensures final(self).cur().function == old(self).cur().function && final(self).cur().kind == old(self).cur().kind && final(self).cur().locals == old(self).cur().locals && final(self).cur().upvalues == old(self).cur().upvalues
+    //@  ensures final(self).cur().scope_depth == old(self).cur().scope_depth && final(self).cur().lambda_count == old(self).cur().lambda_count && final(self).cur().in_try_block == old(self).cur().in_try_block
+    //@  ensures final(self).cur().loop_stack == old(self).cur().loop_stack && final(self).cur().break_stack == old(self).cur().break_stack
+    //@  ensures final(self).errors == old(self).errors && final(self).panic_mode == old(self).panic_mode && final(self).previous == old(self).previous && final(self).current == old(self).current
+    //@  ensures final(self).class_compilers == old(self).class_compilers && final(self).pushed == old(self).pushed && final(self).single_target_mode == old(self).single_target_mode
+    //@end
+
+    //@fn file=yarel/src/compiler.rs path=Parser::emit_byte
+    //@  requires old(self).pwf()
+    //@  ensures final(self).pwf(), old(self).same_but_code(final(self))
+    //@  ensures final(self).code() == old(self).code().push(byte)
+    //@end
+
+    //@fn file=yarel/src/compiler.rs path=Parser::emit_bytes
+    //@  requires old(self).pwf()
+    //@  ensures final(self).pwf(), old(self).same_but_code(final(self))
+    //@  ensures final(self).code() == old(self).code().push(bytes[0]).push(bytes[1])
+    //@end
+
+    //@fn file=yarel/src/compiler.rs path=Parser::emit_jump ret=r
+    //@  subst "instruction as u8" => "opcode_u8(instruction)" count=1
+    //@  requires old(self).pwf()
+    //@  ensures final(self).pwf(), old(self).same_but_code(final(self))
+    //@  ensures final(self).code() == old(self).code().push(opcode_byte(instruction)).push(0xff).push(0xff)
+    //@  ensures r == old(self).code().len() + 1
+    //@end
+
+    //@fn file=yarel/src/compiler.rs path=Parser::emit_loop
+    //@  rewrite R6 R11
+    //@  subst "OpCode::Loop as u8" => "opcode_u8(OpCode::Loop)" count=1
+    //@  requires old(self).pwf(), loop_start <= old(self).code().len(), old(self).code().len() < 0x4000_0000_0000_0000
+    //@  ensures final(self).pwf(), old(self).same_but_code_errors(final(self))
+    //@  ensures final(self).code().len() == old(self).code().len() + 3
+    //@  ensures final(self).code().subrange(0, old(self).code().len() as int) == old(self).code()
+    //@  ensures final(self).code()[old(self).code().len() as int] == opcode_byte(OpCode::Loop)
+    //@  ensures final(self).has_error() || old(self).code().len() + 3 - u16_of(final(self).code()[old(self).code().len() as int + 1], final(self).code()[old(self).code().len() as int + 2]) == loop_start
+    //@end
+
+    //@fn file=yarel/src/compiler.rs path=Parser::patch_jump
+    //@  requires old(self).pwf(), offset + 2 <= old(self).code().len()
+    //@  ensures final(self).pwf(), old(self).same_but_code_errors(final(self))
+    //@  ensures final(self).code().len() == old(self).code().len()
+    //@  ensures forall|j: int| 0 <= j < old(self).code().len() && j != offset && j != offset + 1 ==> final(self).code()[j] == old(self).code()[j]
+    //@  ensures final(self).has_error() || u16_of(final(self).code()[offset as int], final(self).code()[offset + 1]) == old(self).code().len() - offset - 2
+    //@end
+
+    //@fn file=yarel/src/compiler.rs path=Parser::patch_offset_at
+    //@  rewrite R6 R11
+    //@  requires old(self).pwf(), offset <= old(self).code().len(), pos + 2 <= old(self).code().len()
+    //@  ensures final(self).pwf(), old(self).same_but_code_errors(final(self))
+    //@  ensures final(self).code().len() == old(self).code().len()
+    //@  ensures forall|j: int| 0 <= j < old(self).code().len() && j != pos && j != pos + 1 ==> final(self).code()[j] == old(self).code()[j]
+    //@  ensures final(self).has_error() || u16_of(final(self).code()[pos as int], final(self).code()[pos + 1]) == old(self).code().len() - offset
+    //@end
+
+    //@fn file=yarel/src/compiler.rs path=Parser::make_constant ret=r
+    //@  subst "value::Value" => "Value" count=1
+    //@  requires old(self).pwf()
+    //@  ensures final(self).pwf()
+    //@  ensures final(self).has_error() || ((r as int) < final(self).cur().chunk.constants@.len() && final(self).cur().chunk.constants@[r as int] == value)
+    //@  ensures final(self).cur().chunk.constants@.subrange(0, old(self).cur().chunk.constants@.len() as int) == old(self).cur().chunk.constants@
+    //@  ensures final(self).code() == old(self).code()
+    //@  ensures old(self).has_error() ==> final(self).has_error()
     //@end
 }
 
